@@ -4,10 +4,13 @@ import (
 	"fmt"
 	"runtime"
 	"sync"
+	"sync/atomic"
 	"time"
 
 	"github.com/failsafe-go/failsafe-go"
 	"github.com/failsafe-go/failsafe-go/circuitbreaker"
+	"github.com/failsafe-go/failsafe-go/hedgepolicy"
+	"github.com/failsafe-go/failsafe-go/retrypolicy"
 
 	"verifharness/vk"
 )
@@ -108,5 +111,62 @@ func c16ConcurrentBreakerEvents(rep *vk.Report, idx int) {
 	rep.Count("concurrent_breaker_events", int64(len(generic)))
 	if len(generic) >= 3 {
 		rep.Distinct(fmt.Sprintf("cbev|%d|%d|%d", g, slow, min(len(generic)/10, 20)))
+	}
+}
+
+// c16ExceededOnce: "OnRetriesExceeded and OnAbort at most once [per policy and execution]" where the same retry policy is
+// entered several times within one execution: as the inner policy of Retry(Retry(fn)) when the outer policy retries
+// after the inner one gave up, and under Hedge(Retry(fn)) when hedged attempts run after the first one gave up. The inner
+// policy gives up by max retries, by max duration, or aborts.
+func c16ExceededOnce(rep *vk.Report, idx int) {
+	r := vk.Rng(rep.Seed, "C16x", idx)
+	nest := vk.Pick(r, "retry>retry", "retry>retry", "hedge>retry")
+	giveUp := vk.Pick(r, "max-retries", "max-duration", "max-duration", "abort")
+	var exceeded, aborted, polFailure, polSuccess, calls atomic.Int64
+	ib := retrypolicy.Builder[int]().WithDelay(200 * time.Microsecond).
+		OnRetriesExceeded(func(failsafe.ExecutionEvent[int]) { exceeded.Add(1) }).
+		OnAbort(func(failsafe.ExecutionEvent[int]) { aborted.Add(1) }).
+		OnFailure(func(failsafe.ExecutionEvent[int]) { polFailure.Add(1) }).
+		OnSuccess(func(failsafe.ExecutionEvent[int]) { polSuccess.Add(1) })
+	switch giveUp {
+	case "max-retries":
+		ib.WithMaxRetries(1 + r.IntN(2))
+	case "max-duration":
+		ib.WithMaxRetries(-1).WithMaxDuration(time.Duration(1+r.IntN(3)) * time.Millisecond)
+	case "abort":
+		ib.WithMaxRetries(5).AbortOnErrors(errE2)
+	}
+	inner := ib.Build()
+	var pols []failsafe.Policy[int]
+	if nest == "retry>retry" {
+		pols = []failsafe.Policy[int]{retrypolicy.Builder[int]().WithMaxRetries(2).Build(), inner}
+	} else {
+		pols = []failsafe.Policy[int]{hedgepolicy.BuilderWithDelay[int](3 * time.Millisecond).WithMaxHedges(2).CancelIf(func(_ int, err error) bool { return err == nil }).Build(), inner}
+	}
+	fn := func() (int, error) {
+		k := calls.Add(1)
+		if giveUp == "abort" && k >= 2 {
+			return 0, errE2
+		}
+		return 0, errE1
+	}
+	var err error
+	if r.IntN(3) == 0 {
+		_, err = failsafe.NewExecutor[int](pols...).GetAsync(fn).Get()
+	} else {
+		_, err = failsafe.NewExecutor[int](pols...).Get(fn)
+	}
+	time.Sleep(time.Millisecond)
+	rep.Eval()
+	cs := map[string]any{"nesting": nest, "inner_gives_up_by": giveUp}
+	// A13: an inner policy that aborted is asked again when the outer policy retries and aborts again on the same outcome;
+	// whether those count as "the" abort of the execution is not stated, so only the exceeded event is held to "once"
+	if exceeded.Load() > 1 || exceeded.Load() > 0 && aborted.Load() > 0 {
+		rep.Violate(idx, "C16/exceeded-event-more-than-once", fmt.Sprintf("%s, inner retry policy gives up by %s: within one execution its OnRetriesExceeded fired %d times and OnAbort %d times (function invoked %d times, result error %v)", nest, giveUp, exceeded.Load(), aborted.Load(), calls.Load(), err), cs)
+		return
+	}
+	if exceeded.Load() == 1 || aborted.Load() > 0 {
+		rep.Count("inner_retry_policy_reentered_after_giving_up", 1)
+		rep.Distinct(fmt.Sprintf("xonce|%s|%s|%d", nest, giveUp, min(calls.Load(), 12)))
 	}
 }
